@@ -2,8 +2,9 @@
 # tools/cmp.sh <suite> [seed] [n] [tier] — quick manual correspondence run: prints mismatches and oracle failures
 S=$1; SEED=${2:-1}; N=${3:-200}; TIER=${4:-quick}
 D=$(mktemp -d /var/tmp/kvcmp.XXXXXX)
-H=/verif/harness/target/debug/kv-harness
-T=/verif/lean/.lake/build/bin/kira_twin
+R=$(cd "$(dirname "$0")/.." && pwd)
+H=$R/harness/target/debug/kv-harness
+T=$R/lean/.lake/build/bin/kira_twin
 $H gen $S $SEED $N $TIER | grep -v '^#' > $D/ops.txt
 $H run $S < $D/ops.txt > $D/impl_all.txt
 grep -v '^!' $D/impl_all.txt > $D/impl.txt
